@@ -483,8 +483,13 @@ def decorate(rng, part, profile):
         if rng.random() < 0.3:
             part["tempos"].append({"t": 0, "bpm": rng.choice((60, 72, 96, 120, 144)), "unit": "q"})
     elif profile == "midi":
-        if rng.random() < 0.5:
-            part["tempos"].append({"t": 0, "bpm": rng.choice((60, 72, 96, 120, 144)), "unit": "q"})
+        # tempo is global in a MIDI file: only the first part carries tempo marks
+        if part["id"] == "P1" and rng.random() < 0.6:
+            part["tempos"].append({"t": 0 if rng.random() < 0.7 else rng.choice(onsets), "bpm": rng.choice((60, 72, 96, 120, 144)), "unit": "q"})
+            if rng.random() < 0.3 and len(ms) > 1:
+                t2 = rng.choice(ms[1:])["s"]
+                if t2 != part["tempos"][0]["t"]:
+                    part["tempos"].append({"t": t2, "bpm": rng.choice((50, 80, 100, 132)), "unit": "q"})
     # --- repeat structure at measure boundaries
     if profile in ("full", "unfold") and len(ms) >= 2 and (profile == "unfold" or rng.random() < 0.25):
         gen_repeats(rng, part, profile)
